@@ -86,6 +86,20 @@ template<class T> static void run_int(Rng& g, int n) {
 #undef IOPS
 	}
 }
+// the GLSL integer functions with output parameters (32-bit only) and bitCount / findLSB / findMSB / bitfieldReverse: vector overload = scalar overload on every component
+static void int_functions(Rng& g, int n) { const glm::qualifier Q = glm::defaultp;
+	for (int it = 0; it < n; ++it) {
+#define IFN(L) { glm::vec<L, glm::uint, Q> x, y, c, bo, hi, lo; glm::vec<L, int, Q> sx, sy, shi, slo; for (int i = 0; i < L; ++i) { x[i] = (glm::uint)ispecial<unsigned>(g); y[i] = (glm::uint)ispecial<unsigned>(g); sx[i] = ispecial<int>(g); sy[i] = ispecial<int>(g); } count("int_functions"); \
+		auto sum = glm::uaddCarry(x, y, c); auto dif = glm::usubBorrow(x, y, bo); glm::umulExtended(x, y, hi, lo); glm::imulExtended(sx, sy, shi, slo); auto bc = glm::bitCount(sx); auto fl = glm::findLSB(sx); auto fm = glm::findMSB(sx); auto br = glm::bitfieldReverse(x); \
+		for (int i = 0; i < L; ++i) { glm::uint c1, b1, h1, l1; int sh1, sl1; glm::uint s1 = glm::uaddCarry(x[i], y[i], c1), d1 = glm::usubBorrow(x[i], y[i], b1); glm::umulExtended(x[i], y[i], h1, l1); glm::imulExtended(sx[i], sy[i], sh1, sl1); \
+			long long ref = (long long)sx[i] * (long long)sy[i]; \
+			bool ok = sum[i] == s1 && c[i] == c1 && dif[i] == d1 && bo[i] == b1 && hi[i] == h1 && lo[i] == l1 && shi[i] == sh1 && slo[i] == sl1 && shi[i] == (int)(ref >> 32) && slo[i] == (int)(ref & 0xffffffffll) \
+				&& bc[i] == glm::bitCount(sx[i]) && fl[i] == glm::findLSB(sx[i]) && fm[i] == glm::findMSB(sx[i]) && br[i] == glm::bitfieldReverse(x[i]); \
+			if (!ok) { fail("int_functions", "component", "L=" #L " x=" + vs(x) + " y=" + vs(y) + " sx=" + vs(sx) + " sy=" + vs(sy) + " i=" + str(i), "scalar uaddCarry / usubBorrow / umulExtended / imulExtended / bitCount / findLSB / findMSB / bitfieldReverse per component", "differs"); break; } } }
+		FOR_L(IFN)
+#undef IFN
+	}
+}
 static void lowp_inversesqrt(Rng& g, int n) { for (int it = 0; it < n; ++it) { glm::vec<4, float, glm::lowp> a; for (int i = 0; i < 4; ++i) a[i] = std::ldexp((float)g.real(1, 2), g.range(-60, 60)); auto r = glm::inversesqrt(a); count("inversesqrt_lowp");
 	for (int i = 0; i < 4; ++i) { long double e = 1 / sqrtl((long double)a[i]); if (!(fabsl((long double)r[i] - e) <= e / 256)) { fail("inversesqrt_lowp", "accuracy", vs(a) + " i=" + str(i), str((double)e) + " +- 2^-8", str((double)r[i])); break; } } } }
 int main(int argc, char** argv) {
@@ -96,7 +110,7 @@ int main(int argc, char** argv) {
 #elif defined(ORC_PART_DOUBLE)
 	run_float<double, glm::highp>(g, n);
 #else
-	run_int<int>(g, n); run_int<unsigned>(g, n); run_int<glm::int8>(g, n); run_int<glm::uint8>(g, n); run_int<glm::int16>(g, n); run_int<glm::uint16>(g, n); run_int<glm::int64>(g, n); run_int<glm::uint64>(g, n); lowp_inversesqrt(g, n * 10);
+	run_int<int>(g, n); run_int<unsigned>(g, n); run_int<glm::int8>(g, n); run_int<glm::uint8>(g, n); run_int<glm::int16>(g, n); run_int<glm::uint16>(g, n); run_int<glm::int64>(g, n); run_int<glm::uint64>(g, n); int_functions(g, n); lowp_inversesqrt(g, n * 10);
 #endif
 	return finish();
 }
